@@ -57,6 +57,7 @@ type loopCtx struct {
 	isSwitch      bool
 	idx           Value  // current index (slice range)
 	visited       Value  // visited set (map range)
+	head          *State // state at the head of the iteration being verified (loops under specification; for atIter)
 }
 
 type Exec struct {
@@ -85,6 +86,8 @@ type Exec struct {
 	ghostLocalSorts map[string]*Sort
 	extClose   map[string]bool
 	curLabel   string
+	staleLoops map[*LoopSpec]string // loop contracts whose recorded header no longer matches the code
+	assertStale string
 	dryDepth   int
 	useStrings bool
 	atReturnHits map[*Clause]int
@@ -213,7 +216,7 @@ func (x *Exec) assert(st *State, kind, label string, goal Term, tags []string, p
 		name += "{" + x.mode + "}"
 	}
 	o := &Obligation{Func: x.top.Key, Kind: kind, Label: label, Name: name, Tags: tags, Pos: x.posOf(pos), PC: st.pc, Goal: goal, Mode: x.mode,
-		Strings: x.useStrings, SplitVar: x.splitVar, SplitBits: x.splitBits}
+		Strings: x.useStrings, SplitVar: x.splitVar, SplitBits: x.splitBits, Stale: x.assertStale}
 	if goal.S == "true" || st.pc.S == "false" {
 		o.Trivial = true
 		o.Result = "unsat"
@@ -869,6 +872,14 @@ func (x *Exec) loopSpec(n ast.Node) *LoopSpec {
 	if nHdr == 1 {
 		return byHdr
 	}
+	if byOrd != nil {
+		// the loop was rewritten since its contract was written: the invariants are tried as they stand, but when they
+		// are no longer established that says the contract is out of date, not that a property is broken
+		if x.staleLoops == nil {
+			x.staleLoops = map[*LoopSpec]string{}
+		}
+		x.staleLoops[byOrd] = fmt.Sprintf("loop %d of %s was `%s` when its contract was written and is `%s` now", ord, fr.contract.Key, byOrd.Header, hdr)
+	}
 	return byOrd
 }
 
@@ -1154,7 +1165,7 @@ func (x *Exec) forStmt(s *ast.ForStmt, st *State, label string) {
 	sb, se := st.clone(), st.clone()
 	x.addPC(sb, c)
 	x.addPC(se, tNot(c))
-	lc := &loopCtx{label: label}
+	lc := &loopCtx{label: label, head: sb.clone()}
 	outs := body(sb, lc)
 	back := outs[0]
 	if !back.dead {
@@ -1298,7 +1309,7 @@ func (x *Exec) rangeIndexed(s *ast.RangeStmt, st *State, label string, spec *Loo
 	sb, se := st.clone(), st.clone()
 	x.addPC(sb, c)
 	x.addPC(se, tNot(c))
-	lc := &loopCtx{label: label}
+	lc := &loopCtx{label: label, head: sb.clone()}
 	back := body(sb, lc)
 	if !back.dead {
 		x.loopInvs(spec, back, env, "inv-keep", s.Pos())
@@ -1368,7 +1379,7 @@ func (x *Exec) rangeMap(s *ast.RangeStmt, st *State, label string, spec *LoopSpe
 	hasE := tSelect(x.getHeap(se, hasKey).(Term), m)
 	x.assume(se, Term{fmt.Sprintf("(forall ((qk %s)) (! (=> (and %s %s) %s) :pattern (%s) :pattern (%s)))", ks,
 		tSelect(has0, qk).S, tSelect(hasE, qk).S, tSelect(visE, qk).S, tSelect(visE, qk).S, tSelect(hasE, qk).S), sortBool})
-	lc := &loopCtx{label: label}
+	lc := &loopCtx{label: label, head: sb.clone()}
 	back := body(sb, lc)
 	if !back.dead {
 		x.loopInvs(spec, back, env, "inv-keep", s.Pos())
@@ -1538,6 +1549,8 @@ func (x *Exec) loopInvs(spec *LoopSpec, st *State, env *loopEnvT, kind string, p
 	if spec == nil || st.dead {
 		return
 	}
+	x.assertStale = x.staleLoops[spec]
+	defer func() { x.assertStale = "" }()
 	for _, inv := range spec.Invs {
 		x.curLabel = inv.Label
 		for _, g := range x.specConjuncts(inv.Expr, env.at(st)) {
